@@ -174,6 +174,54 @@ Theorem released_once : forall ops,
 Proof. exact released_once_model. Qed.
 Print Assumptions released_once.
 
+(* A name that is in use is refused.  While the invoker is in use, a request
+   whose directory name exists in the root -- held by a live action (two
+   overlapping actions with the same action digest / the same 16-character
+   prefix) or left behind by a failed RemoveAll -- fails with the Mkdir error
+   (Internal = 13): nothing is created, removed, acquired or handed out. *)
+Theorem existing_name_refused : forall s k dig f,
+  slot_name (d_slots s) k = None -> 0 < d_users s ->
+  has (fst (dir_name (d_counter s) dig)) (d_root s) = true ->
+  dstep s (DGet k dig f) =
+    (mkD (d_root s) (d_users s) (snd (dir_name (d_counter s) dig)) (d_slots s), DErr 13, 0).
+Proof. exact existing_name_refused_model. Qed.
+Print Assumptions existing_name_refused.
+
+Theorem name_in_use_refused : forall ops k dig f,
+  let s := drun dinit ops in
+  slot_name (d_slots s) k = None ->
+  name_open (d_slots s) (fst (dir_name (d_counter s) dig)) = true ->
+  dstep s (DGet k dig f) =
+    (mkD (d_root s) (d_users s) (snd (dir_name (d_counter s) dig)) (d_slots s), DErr 13, 0).
+Proof. exact name_in_use_refused_model. Qed.
+Print Assumptions name_in_use_refused.
+
+(* Whatever is handed out is held by no other live action, is empty at
+   that moment, and no open directory was touched by handing it out. *)
+Theorem handed_out_fresh : forall ops k dig f s' n c,
+  let s := drun dinit ops in
+  dstep s (DGet k dig f) = (s', DGot n, c) ->
+  name_open (d_slots s) n = false /\ empty_dir_in n (d_root s') = true /\
+  all_open_exist (d_slots s) (d_root s') = true /\ d_slots s' = (k, n) :: d_slots s.
+Proof. exact handed_out_fresh_model. Qed.
+Print Assumptions handed_out_fresh.
+
+(* An action's Close removes only its own directory. *)
+Theorem close_keeps_others : forall ops k f,
+  let s := drun dinit ops in
+  let s' := fst (fst (dstep s (DClose k f))) in
+  forall e, In e (d_slots s') -> has (snd e) (d_root s') = true.
+Proof. exact close_keeps_others_model. Qed.
+Print Assumptions close_keeps_others.
+
+Example colliding_digest_refused :
+  let f0 := mkGF false false false false false in
+  map (fun x => ob_out (snd x))
+      (dtrace dinit [DGet 0 (Some "aaaaaaaaaaaaaaaa0000") f0; DGet 1 (Some "aaaaaaaaaaaaaaaa1111") f0;
+                     DClose 0 (mkCF false false false); DGet 1 (Some "aaaaaaaaaaaaaaaa1111") f0])
+  = [DGot "aaaaaaaaaaaaaaaa"; DErr 13; DClosed 0; DGot "aaaaaaaaaaaaaaaa"].
+Proof. vm_compute. reflexivity. Qed.
+
 Example dirs_reach :
   let f0 := mkGF false false false false false in
   let s := drun dinit [DGet 0 None f0; DGet 1 (Some "aaaaaaaaaaaaaaaabbbb") f0; DWrite 0 "x";
